@@ -818,9 +818,9 @@ def case_coq(c):
 
 
 E2E_TYPE = "(idp * sp_md * sp * args)"
-M_RT = "fun x : idp * sp_md * sp * args => match x with (i, m, s, a) => show_roundtrip (roundtrip i m s a) end"
-M_WIRE = "fun x : idp * sp_md * sp * args => match x with (i, m, s, a) => show_wire (sign_encrypt i m a) end"
-M_PAYLOAD = "fun x : idp * sp_md * sp * args => match x with (i, m, s, a) => show_payload_xml (build_payload i a) end"
+
+
+
 
 
 # ---- the documented expectations (oracle side; independent of the model)
@@ -876,19 +876,21 @@ def gen_cases(ctx):
     short = [v for v in vals if len(v) <= 60]
     cases = []
 
+    tri = lambda: rng.choice([None, False, True])  # noqa: E731
+    # a few long-lived SPs and IdP configurations: every object serves many different messages in a row
+    sp_pool = [dict(ids=rng.choice(["plain", "plain", "special"]), wants=tuple(rng.random() < 0.3 for _ in range(3)),
+                    allow_unsolicited=rng.random() < 0.25, allow_unknown=rng.random() < 0.4, slack=rng.choice([0, 0, 60]),
+                    sp_enc=rng.choice(["own", "own", "none", "two"])) for _ in range(10 if ctx.quick else 40)]
+    idp_pool = [dict(policy=pn, idp_defaults={}) for pn in POLICIES]
+    idp_pool += [dict(policy=rng.choice(list(POLICIES)), idp_defaults={k: tri() for k in ("sign_response", "sign_assertion", "encrypt_assertion")})
+                 for _ in range(4 if ctx.quick else 16)]
+
     def rand_case(**fixed):
         c = default_case()
-        c["ids"] = rng.choice(["plain", "plain", "special"])
-        c["wants"] = tuple(rng.random() < 0.3 for _ in range(3))
-        c["allow_unsolicited"] = rng.random() < 0.2
-        c["allow_unknown"] = rng.random() < 0.35
-        c["slack"] = rng.choice([0, 0, 60])
-        c["sp_enc"] = rng.choice(["own", "own", "none", "two"])
-        c["policy"] = rng.choice(list(POLICIES))
+        c.update(rng.choice(sp_pool))
+        c.update(copy.deepcopy(rng.choice(idp_pool)))
         c["binding"] = rng.choice(["post", "post", "redirect", "soap"])
-        tri = lambda: rng.choice([None, False, True])  # noqa: E731
-        if rng.random() < 0.3:
-            c["idp_defaults"] = {k: tri() for k in ("sign_response", "sign_assertion", "encrypt_assertion")}
+        if c["idp_defaults"]:
             c["flags"] = {k: tri() for k in ("sign_response", "sign_assertion", "encrypt_assertion")}
         else:
             c["flags"] = {k: rng.random() < 0.5 for k in ("sign_response", "sign_assertion", "encrypt_assertion")}
@@ -911,15 +913,42 @@ def gen_cases(ctx):
         c["offset"] = rng.choice([0, 0, 1, 5, lifetime // 2, lifetime - 1, lifetime, lifetime + 1, lifetime + c["slack"], lifetime + c["slack"] + 1,
                                   -1, -c["slack"], -c["slack"] - 1, 39, 40, 41, 86399, 86400 + c["slack"], 86401 + c["slack"]])
         c.update(fixed)
+        if "policy" in fixed or "ids" in fixed:      # keep the case consistent with a fixed policy / entity ids
+            sp_id = IDS[c["ids"]][1]
+            lt, nf2 = policy_expect(POLICIES[c["policy"]](sp_id), sp_id)
+            if "identity" not in fixed:
+                c["identity"] = rand_identity(ctx, pool, [o for o in outside if o], nf2, short, nmax=5)
+            if "offset" not in fixed:
+                c["offset"] = rng.choice([0, 1, lt // 2, lt - 1])
+            if c["name_id"]["spq"] not in (None, "q\"<&>"):
+                c["name_id"]["spq"] = sp_id
+            if c["name_id"]["nq"] is not None:
+                c["name_id"]["nq"] = IDS[c["ids"]][0]
         return c
 
-    # the whole sign x sign x encrypt x SP-requirement x (SP has an encryption certificate or not) product
+    # the whole sign x sign x encrypt x SP-requirement x (SP has an encryption certificate or not) product; per SP one
+    # long-lived IdP / SP pair answers all eight flag settings in a row
     for wants in itertools.product((False, True), repeat=3):
-        for sr, sa, ea in itertools.product((False, True), repeat=3):
-            for sp_enc in ("own", "none"):
+        for sp_enc in ("own", "none"):
+            for sr, sa, ea in itertools.product((False, True), repeat=3):
                 cases.append(rand_case(wants=wants, flags=dict(sign_response=sr, sign_assertion=sa, encrypt_assertion=ea), sp_enc=sp_enc,
+                                       ids="plain", allow_unsolicited=False, allow_unknown=False, slack=0, policy="default15",
                                        idp_defaults={}, offset=rng.choice([0, 1, 30]), solicited=True, give_cert=None, session_nooa=None,
                                        authn=rng.choice([{"class_ref": PASSWORD}, {"class_ref": PASSWORD, "authn_auth": "https://aa.example.org/"}])))
+    # configured defaults instead of arguments (None = use the IdP's configured value, else False)
+    for dflt in itertools.product((None, False, True), repeat=3):
+        d = dict(zip(("sign_response", "sign_assertion", "encrypt_assertion"), dflt))
+        for flags in ((None, None, None), (None, True, None), (False, None, True)):
+            cases.append(rand_case(wants=(False, True, False), sp_enc=rng.choice(["own", "none"]), ids="plain", allow_unsolicited=False, allow_unknown=False,
+                                   slack=0, policy="default15", idp_defaults=dict(d), flags=dict(zip(("sign_response", "sign_assertion", "encrypt_assertion"), flags)),
+                                   offset=0, solicited=True, give_cert=None, session_nooa=None, authn={"class_ref": PASSWORD}))
+    # shapes with a known / documented special reading
+    base = dict(wants=(False, False, False), ids="plain", allow_unsolicited=False, slack=0, idp_defaults={}, offset=0, solicited=True, give_cert=None,
+                session_nooa=None, authn={"class_ref": PASSWORD}, flags=dict(sign_response=True, sign_assertion=False, encrypt_assertion=False))
+    cases.append(rand_case(policy="default15", allow_unknown=False, sp_enc="own", identity={"eduPersonTargetedID": ["abc", "", " x "], "mail": [""]}, **base))
+    cases.append(rand_case(policy="shib", allow_unknown=True, sp_enc="own", identity={"EDUPERSONTARGETEDID": ["id-1"], "gn": ["a"], "givenName": ["b"], "Foo": [" v "]}, **base))
+    cases.append(rand_case(policy="unspecified", allow_unknown=False, sp_enc="own", identity={"emailAddress": ["a@b"], "upn": ["u"], "commonName": ["cn"], "group": ["g1", "g2"]}, **base))
+    cases.append(rand_case(policy="default-basic", allow_unknown=True, sp_enc="none", identity={"eduPersonTargetedID": [""], "cn": [" a "], " Foo ": ["x"], "urn:oid:2.5.4.42": ["wire"]}, **base))
     # every map name once per format (wrong-row detection), a few per message
     for nf, polname in ((NF_URI, "default15"), (NF_BASIC, "default-basic"), (NF_UNSPEC, "unspecified"), (NF_SHIB, "shib")):
         names = [k for k in pool[nf]]
@@ -932,7 +961,7 @@ def gen_cases(ctx):
                     ident[rng.choice(case_variants(rng, k))] = [rng.choice(short)]
             cases.append(rand_case(policy=polname, identity=ident, offset=0, solicited=True, wants=(False, False, False), give_cert=None,
                                    session_nooa=None, authn={"class_ref": PASSWORD}))
-    for _ in range(150 if ctx.quick else 6000):
+    for _ in range(140 if ctx.quick else 6000):
         cases.append(rand_case())
     # long / many-valued
     cases.append(rand_case(identity={"givenName": ["v%04d é&<>\" " % i for i in range(1500)], "mail": ["x" * 20000, ""]}, offset=0, solicited=True,
@@ -1030,31 +1059,148 @@ def oracle(ctx, c, xml, got):
 KNOWN_LOST = {(NF_UNSPEC, "emailaddress"), (NF_UNSPEC, "upn")}
 
 
-def unit_e2e(ctx):
+M_E2E = ("fun x : idp * sp_md * sp * args => match x with (i, m, s, a) => "
+         "VL [show_roundtrip (roundtrip i m s a); "
+         "if build_fails (sign_encrypt i m a) a then VNone else show_wire (sign_encrypt i m a); "
+         "if build_fails (sign_encrypt i m a) a then VNone else show_payload_xml (build_payload i a)] end")
+
+
+def run_case(ctx, world, c):
+    """one end-to-end run: (message | Exn, observation, [rsig, asig, enc] | None, payload canonical | None)"""
+    xml = build(world, c)
+    if isinstance(xml, Exn):
+        return xml, xml, None, None
+    got = deliver(world, c, xml)
+    rsig, asig, enc, a = inspect(world, c, xml)
+    return xml, got, [rsig, asig, enc], (payload_canon(a) if a is not None else None)
+
+
+def unit_e2e(ctx, cases=None, unit="e2e_roundtrip_wire_payload"):
     world = World()
-    cases = gen_cases(ctx)
-    crt, cw, cpx = [], [], []
+    cases = gen_cases(ctx) if cases is None else cases
+    cc = []
     for i, c in enumerate(cases):
-        xml = build(world, c)
-        got = deliver(world, c, xml) if not isinstance(xml, Exn) else xml
+        xml, got, wire, pay = run_case(ctx, world, c)
         oracle(ctx, c, xml, got)
         ctx.count("e2e:binding=" + c["binding"])
         ctx.count("e2e:" + ("accepted" if isinstance(got, list) else "refused"))
+        if wire is not None:
+            ctx.count("e2e:wire rsig=%d asig=%d enc=%d" % tuple(wire))
         big = sum(len(k) + sum(len(v) for v in vs) for k, vs in c["identity"].items()) > 3000
         if big:
             ctx.count("e2e:too large for the model run (oracle only)")
             continue
-        term = case_coq(c)
         show = dict((k, c[k]) for k in c)
-        crt.append(dict(id=i, coq=term, impl=got if isinstance(got, list) else Exn("rejected"), show=show))
-        if not isinstance(xml, Exn):
-            rsig, asig, enc, a = inspect(world, c, xml)
-            cw.append(dict(id=i, coq=term, impl=[rsig, asig, enc], show=show))
-            if a is not None:
-                cpx.append(dict(id=i, coq=term, impl=payload_canon(a), show=show))
-            ctx.count("e2e:wire rsig=%d asig=%d enc=%d" % (rsig, asig, enc))
+        cc.append(dict(id=i, coq=case_coq(c), impl=[got if isinstance(got, list) else Exn("rejected"), wire, pay], show=show))
         if i < 3:
-            ctx.sample(dict(case=show, observed=got if isinstance(got, list) else repr(got)))
-    ctx.correspond("roundtrip", IMPORTS, M_RT, E2E_TYPE, crt, shard=25)
-    ctx.correspond("wire", IMPORTS, M_WIRE, E2E_TYPE, cw, shard=60)
-    ctx.correspond("payload_xml", IMPORTS, M_PAYLOAD, E2E_TYPE, cpx, shard=40)
+            ctx.sample(dict(case=show, observed=got if isinstance(got, list) else repr(got), wire=wire))
+    ctx.extra["e2e_worlds"] = "%d IdP/SP pairs served %d messages" % (len(world.sps), len(cases))
+    return ctx.correspond(unit, IMPORTS, M_E2E, E2E_TYPE, cc, shard=max(12, len(cc) // 16 + 1))
+
+
+def unit_outside(ctx):
+    """values OUTSIDE the classes C08 lists (CR, C0 controls, noncharacters): run, counted, never asserted"""
+    world = World()
+    n = 0
+    for v in outside_corpus(ctx, 10 if ctx.quick else 300):
+        if not encodable(v):
+            continue
+        c = default_case()
+        c["identity"] = {"givenName": [v, "ok"]}
+        xml = build(world, c)
+        got = deliver(world, c, xml) if not isinstance(xml, Exn) else xml
+        n += 1
+        if isinstance(got, list):
+            back = dict((k, vs) for k, vs in got[1]).get("givenName")
+            ctx.count("outside-classes:" + ("arrives unchanged" if back == [v.strip(), "ok"] else "arrives changed (CR -> LF)" if "\r" in v else "arrives changed"))
+        else:
+            ctx.count("outside-classes:message refused (%s)" % (got.name if isinstance(got, Exn) else got))
+    ctx.unit("outside_classes(not asserted)", cases=n, disagreements=0)
+
+
+# ------------------------------------------------------------------ driver entry points
+def run(ctx):
+    unit_text(ctx)
+    unit_tree(ctx)
+    unit_attrs(ctx)
+    unit_e2e(ctx)
+    unit_outside(ctx)
+    ctx.exhaustive = False
+    ctx.notes.append("exhaustive inside the run: sign_response x sign_assertion x encrypt_assertion x the 8 SP requirement settings x (SP metadata "
+                     "with / without an encryption certificate); the 27 configured-default settings; every local name of every shipped attribute map "
+                     "once per name format; str.strip on every str.isspace code point. Random: values, identities, NameIDs, contexts, policies, clocks.")
+
+
+def single_name_sweep(ctx):
+    """every (name format, map name) alone in one message: localises a wrong table row"""
+    world = World()
+    pool, _ = name_pool(ctx)
+    n = 0
+    for nf, polname in ((NF_URI, "default15"), (NF_BASIC, "default-basic"), (NF_UNSPEC, "unspecified"), (NF_SHIB, "shib")):
+        for k in pool[nf]:
+            c = default_case()
+            c.update(policy=polname, identity={k: ["v"]}, flags=dict(sign_response=False, sign_assertion=False, encrypt_assertion=False))
+            xml, got, _, _ = run_case(ctx, world, c)
+            oracle(ctx, c, xml, got)
+            n += 1
+    ctx.unit("cex:single_name_sweep", cases=n, disagreements=0)
+
+
+def cex_search(ctx):
+    """something no longer checks: look for a concrete input on which the IMPLEMENTATION violates the statement"""
+    if ctx.oracle_failures:
+        return
+    single_name_sweep(ctx)
+    if ctx.oracle_failures:
+        return
+    # the cases on which model and implementation differ, and many more random ones, through the oracle alone
+    world = World()
+    for d in ctx.disagreements:
+        c = d.case.get("show")
+        if isinstance(c, dict) and "flags" in c and "identity" in c:
+            xml, got, _, _ = run_case(ctx, world, c)
+            oracle(ctx, c, xml, got)
+    if ctx.oracle_failures:
+        return
+    import random
+    saved = ctx.rng
+    for seed in range(3):
+        ctx.rng = random.Random(ctx.seed * 1000 + seed)
+        for c in gen_cases(ctx):
+            xml, got, _, _ = run_case(ctx, world, c)
+            oracle(ctx, c, xml, got)
+        if ctx.oracle_failures:
+            break
+    ctx.rng = saved
+
+
+def replay(ctx, payload):
+    inp = payload.get("input") or {}
+    print("replay:", payload.get("key"), "-", payload.get("what"))
+    unit = inp.get("unit")
+    if unit in ("text", "attr"):
+        s = inp["s"]
+        print("  string          :", repr(s))
+        print("  written as text :", repr(et_text(s)), "-> read back", repr(read_text(et_text(s))))
+        print("  written as attr :", repr(et_attr(s)), "-> read back", repr(read_attr(et_attr(s))))
+        return 0
+    if unit == "tree":
+        print("  document:", inp["doc"])
+        print("  read back:", real_parse(inp["doc"]))
+        return 0
+    if unit == "e2e":
+        c = inp["case"]
+        c["wants"] = tuple(c["wants"])
+        world = World()
+        xml, got, wire, pay = run_case(ctx, world, c)
+        print("  case        :", json.dumps(c, default=str)[:3000])
+        print("  message     :", (xml if isinstance(xml, str) else repr(xml))[:3000])
+        print("  signed/encrypted (response, assertion, encrypted):", wire)
+        print("  SP observes :", got)
+        before = len(ctx.oracle_failures)
+        oracle(ctx, c, xml, got)
+        for k, w, _ in ctx.oracle_failures[before:]:
+            print("  STILL FAILS :", k, "-", w)
+        return 1 if len(ctx.oracle_failures) > before else 0
+    print(json.dumps(payload, default=str)[:3000])
+    return 0
